@@ -54,7 +54,7 @@ class Knobs(object):
         self.p_on_exception = 0.2
         self.p_late_initial = 0.1
         self.nvariants = 3
-        self.remove_reps = ('str',)       # representations of state selectors in remove_transition
+        self.remove_reps = ('str', 'str', 'enum', 'obj')   # representations of the selectors of remove_transition
         self.script_depth = 4
         self.__dict__.update(kw)
 
@@ -458,16 +458,8 @@ def enc_oarg(a):
     return o
 
 
-def selectors_fixed():
-    """Once finding F-C13-remove-selector is marked fixed in known_findings.json the model is told that
-    Enum / State selectors of remove_transition count as the names they stand for."""
-    return any(f.get('id') == 'F-C13-remove-selector' and f.get('status') == 'fixed'
-               for f in common.load_known_findings())
-
-
 def enc_variant(case, variant):
     o = case['opts']
-    by_name = selectors_fixed()
     out = [int(o['auto']), _opt3(o['mign'])]
     for k in ('prepare_event', 'before_sc', 'after_sc', 'finalize', 'on_exception', 'on_final'):
         out += _l(o[k])
@@ -500,11 +492,9 @@ def enc_variant(case, variant):
                 o2 += enc_oarg(st['args'][kk])
             ops.append(o2)
         elif k == 'remove':
-            def sel(x, rep):
-                if x is None:
-                    return [0]
-                return [1, len(x)] + sum(([s, int(rep == 'str' or by_name)] for s in x), [])
-            ops.append([3, st['ev']] + sel(st['src'], st['srcrep']) + sel(st['dst'], st['dstrep']))
+            # selectors are names for the model whatever their Python type (str / Enum member / State object)
+            ops.append([3, st['ev']] + ([0] if st['src'] is None else [1] + _l(st['src'])) +
+                       ([0] if st['dst'] is None else [1] + _l(st['dst'])))
         elif k == 'model':
             pass
         else:
